@@ -631,10 +631,12 @@ def call_bad(obj, what):
         raise ValueError(what)
 
 
-def real_lines(h):
-    """returns (lines, errkinds) — one line per model line"""
+def real_lines(h, dump=None):
+    """returns (lines, errkinds) — one line per model line; `dump` replaces the snapped state dump (run_scale_stream: raw bit patterns)"""
     from magpylib._src.exceptions import MagpylibBadUserInput
 
+    if dump is not None:
+        return _real_states(h, dump)
     root = build_real(h["shape"])
     out = ["ok " + dump_real(root)]
     errs = []
@@ -776,4 +778,162 @@ def run_stream(ctx, n_hist, n_ops, equal_lengths_share=0.3, corpus=None):
     stats["samples"] = samples
     print("path stream op distribution:", json.dumps({"ops": stats["op_kinds"], "rotate forms": stats["forms"],
                                                        "entry points": stats["entry_points"], "rejected": stats["err_kinds"]}, sort_keys=True))
+    return stats
+
+
+# ------------------------------------------------------------------ C12: the same history at a second length scale
+def _real_states(h, dump):
+    """the operation dispatch of `real_lines` with a caller-supplied state dump (no snapping); returns (states, errkinds)"""
+    from magpylib._src.exceptions import MagpylibBadUserInput
+
+    root = build_real(h["shape"])
+    out = [("ok", dump(root))]
+    errs = []
+    for op in h["ops"]:
+        obj = node_at(root, op["addr"])
+        k = op["op"]
+        try:
+            if k == "move":
+                inp = op["inp"][1] if op["inp"][0] == "s" else np.array(op["inp"][1], dtype=float).reshape(-1, 3)
+                obj.move(inp, start=start_arg(op["start"]))
+            elif k == "rot":
+                call_rotate(obj, op)
+            elif k == "angax":
+                an = op["anchor"]
+                anchor = None if an is None else (0 if an == 0 else an[1])
+                g = op["angle"]
+                angle = angax_value(op, g[1]) if g[0] == "s" else [angax_value(op, q) for q in g[1]]
+                axis = op["axis"] if isinstance(op["axis"], str) else tuple(op["axis"])
+                obj.rotate_from_angax(angle, axis, anchor=anchor, start=start_arg(op["start"]), degrees=op["degrees"])
+            elif k == "setpos":
+                obj.position = op["val"][0] if op.get("flat") else op["val"]
+            elif k == "setori":
+                if op.get("none"):
+                    obj.orientation = None
+                elif op.get("single"):
+                    obj.orientation = rot_from(OCTA[op["val"][0]])
+                else:
+                    obj.orientation = rot_from([OCTA[i] for i in op["val"]])
+            elif k == "reset":
+                obj.reset_path()
+            elif k == "rotfrom":
+                call_rotfrom(obj, op)
+            elif k == "add":
+                obj.add(build_sub(op["sub"]))
+            elif k == "remove":
+                obj.remove(obj.children[op["j"]])
+            elif k == "bad":
+                call_bad(obj, op["what"])
+            tag = "ok"
+        except MagpylibBadUserInput:
+            tag = "err"
+            errs.append((k, op.get("what"), "BadUserInput"))
+        except Exception as e:
+            tag = "err"
+            errs.append((k, op.get("what"), "Foreign:" + type(e).__name__))
+        out.append((tag, dump(root)))
+    return out, errs
+
+
+def scale_history(h, f):
+    """every LENGTH of the history times `f` (displacements, anchors, assigned positions, the position paths of added subtrees); rotations,
+    angles, axes, `start`, addresses, malformed calls are left as they are.  The initial tree has all positions at the origin."""
+    import copy
+
+    def sv(v):
+        return [float(c) * f for c in v]
+
+    def sp(p):  # PathIn encoding ["s", vec] / ["v", [vecs]]
+        return [p[0], sv(p[1])] if p[0] == "s" else [p[0], [sv(v) for v in p[1]]]
+
+    def sa(a):
+        return a if a is None or a == 0 else sp(a)
+
+    def ssub(node):
+        node["pos"] = [sv(v) for v in node["pos"]]
+        for c in node["kids"]:
+            ssub(c)
+
+    g = copy.deepcopy(h)
+    for op in g["ops"]:
+        k = op["op"]
+        if k == "move":
+            op["inp"] = sp(op["inp"])
+        elif k in ("rot", "angax", "rotfrom"):
+            op["anchor"] = sa(op["anchor"])
+        elif k == "setpos":
+            op["val"] = [sv(v) for v in op["val"]]
+        elif k == "add":
+            ssub(op["sub"])
+    return g
+
+
+def dump_raw(root):
+    """every position path and every orientation quaternion path of the tree as float64 arrays (no snapping, no rounding)"""
+    out = []
+
+    def rec(n):
+        out.append((np.array(n._position, dtype=float).reshape(-1, 3).copy(), np.array(n._orientation.as_quat(), dtype=float).reshape(-1, 4).copy()))
+        for c in getattr(n, "children", []):
+            rec(c)
+
+    rec(root)
+    return out
+
+
+def run_scale_stream(ctx, n_hist, n_ops):
+    """C12 tie of the pose machinery: every generated history is executed on the REAL objects twice — as generated, and with every
+    length multiplied by 2^k (k in -20..20, k != 0) — and after every operation the second state must be the first one with all
+    positions multiplied by 2^k BIT FOR BIT and all orientation quaternions identical bit for bit (multiplication by a power of two
+    commutes with every IEEE operation the pose code performs on lengths — sums, differences, products with rotation matrix entries —
+    as long as nothing over- or underflows, which these magnitudes exclude; an absolute grid or tolerance does not commute).  The
+    outcome (accepted / rejected) of every operation must agree as well.  This is what `step_homogeneous` / `history_homogeneous`
+    (Props/C12b) state about the model, observed on the code for sigma = multiplication by 2^k."""
+    stats = {"histories": 0, "ops": 0, "rows": 0, "states_compared": 0, "nonzero_position_rows": 0, "exponents": {}, "op_kinds": {},
+             "max_path_len": 0, "disagreements": 0, "rejected_ops": 0}
+    samples = []
+    for i in range(n_hist):
+        h = gen_history(ctx.rng, n_ops, equal_lengths=ctx.rng.random() < 0.25)
+        k = ctx.rng.choice([e for e in range(-20, 21) if e != 0])
+        f = 2.0 ** k
+        base, errs = _real_states(h, dump_raw)
+        scaled, _ = _real_states(scale_history(h, f), dump_raw)
+        stats["histories"] += 1
+        stats["ops"] += len(h["ops"])
+        stats["rejected_ops"] += len(errs)
+        stats["exponents"][str(k)] = stats["exponents"].get(str(k), 0) + 1
+        for op in h["ops"]:
+            stats["op_kinds"][op["op"]] = stats["op_kinds"].get(op["op"], 0) + 1
+        bad = None
+        for j, ((ta, sa_), (tb, sb_)) in enumerate(zip(base, scaled)):
+            stats["states_compared"] += 1
+            if ta != tb or len(sa_) != len(sb_):
+                bad = (j, "outcome or tree size differs", ta, tb)
+                break
+            for (pa, qa), (pb, qb) in zip(sa_, sb_):
+                stats["rows"] += len(pa)
+                stats["nonzero_position_rows"] += int(np.count_nonzero(np.any(pa != 0, axis=1)))
+                stats["max_path_len"] = max(stats["max_path_len"], len(pa))
+                if pa.shape != pb.shape or (pa * f).tobytes() != pb.tobytes() or qa.tobytes() != qb.tobytes():
+                    dev = float(np.max(np.abs(pa * f - pb)) / f) if pa.shape == pb.shape else None
+                    bad = (j, "positions are not the scaled positions bit for bit" if pa.shape != pb.shape or (pa * f).tobytes() != pb.tobytes()
+                           else "orientation quaternions differ", dev, None)
+                    break
+            if bad:
+                break
+        if bad:
+            stats["disagreements"] += 1
+            j = bad[0]
+            detail = {"exponent": k, "state_index": j, "what": bad[1], "deviation_in_base_units": bad[2],
+                      "history": {"shape": h["shape"], "ops": h["ops"][:j]}}
+            ctx.broken.append({"kind": "correspondence", "name": "path-scale", "detail": detail})
+            ctx.failing.append({"key": f"unit-scale:pose-history:2^{k}", "desc": f"a history of pose operations executed with every length multiplied by 2^{k} does not give the "
+                                f"scaled state ({bad[1]}; first difference after operation {j}: {h['ops'][j - 1]['op'] if j else 'construction'})", "replay": detail})
+            if stats["disagreements"] >= 3:
+                break
+        elif len(samples) < 2:
+            samples.append({"exponent": k, "shape": h["shape"], "ops": h["ops"][-3:],
+                            "final_positions_base": [p.tolist() for p, _ in base[-1][1]][:3], "final_positions_scaled": [p.tolist() for p, _ in scaled[-1][1]][:3]})
+    stats["samples"] = samples
+    print("path-scale stream:", json.dumps({k: v for k, v in stats.items() if k not in ("samples",)}, sort_keys=True))
     return stats
